@@ -169,6 +169,7 @@ static Json::Value genC15(Rng& rng) {
   pr["args"]["id"] = "pr0";
   pr["args"]["cgroup"] = rng.chance(0.8) ? "/,*,*/*,*/*/*" : "*,*/*";
   pr["args"]["order"] = std::to_string(rng.range(0, 1000));
+
   dg.append(pr);
   rs["detectors"].append(dg);
   Json::Value act(Json::objectValue);
@@ -191,6 +192,12 @@ static Json::Value genC15(Rng& rng) {
   }
   int ticks = (int)rng.range(2, 10);
   plan["ticks"] = ticks;
+  if (rng.chance(0.3)) {
+    int tf2 = (int)rng.range(1, ticks - 1);
+    plan["config"]["rulesets"][0]["detectors"][0][1]["args"]["temporal_from"] =
+        std::to_string(tf2);
+    plan["temporal_from"] = tf2;
+  }
   plan["interval"] = rng.pick({1, 2, 5});
   plan["no_dtype"] = rng.chance(0.25);
   Json::Value ops(Json::arrayValue);
@@ -285,6 +292,8 @@ static void runC15() {
     temporal.devs[k] = R.plan["io_devs"][k].asString();
   temporal.hdd = coeffsFrom(R.plan["hdd_coeffs"]);
   temporal.ssd = coeffsFrom(R.plan["ssd_coeffs"]);
+  temporal.temporalFrom = R.plan.get("temporal_from", 0).asInt();
+  int temporalFrom = temporal.temporalFrom;
   g_onTick = [&]() {
     temporal.sample(W, R.tick);
     snaps.push_back(W);
@@ -505,6 +514,11 @@ static void runC15() {
       auto pr = tp.pgScanRate(*c);
       ex["pg_scan_rate"] = pr ? Json::Value((Json::Int64)*pr) : Json::Value();
     }
+    if (t < temporalFrom)
+      for (auto k : {"average_usage", "io_cost_rate", "pg_scan_rate",
+                     "memory_growth", "io_cost_cumulative",
+                     "pg_scan_cumulative"})
+        skip.insert(k);
     for (const auto& k : ex.getMemberNames()) {
       if (skip.count(k))
         continue;
